@@ -89,16 +89,16 @@ Proof. repeat split; reflexivity. Qed.
    walk of the prefix ends on, together with path_split's last component (C01's
    refinement composed with the split; premise on check_current as in C01) *)
 Theorem C14_static_parent_object :
-  forall s fz o2 pfuel gh ps df rs t root path dirp name,
-    fz <> 0%nat -> StaticProofs.chk_static_ok s (OpathM.check_current fz o2 pfuel gh) -> wf s df -> StaticProofs.links_ok s ->
+  forall s rp fz o2 pfuel gh ps df rs t root path dirp name,
+    fz <> 0%nat -> StaticProofs.chk_static_ok s rp (OpathM.check_current fz o2 pfuel gh) -> wf s df -> StaticProofs.links_ok s ->
     rs_kernel rs = false ->
     path_split path = Some (Ok (dirp, Some name)) -> has_nul dirp = false ->
     Static.tget t root = Some ROOT ->
     match ewalk s dirp false (has (rs_flags rs) RESOLVE_NO_SYMLINKS) with
-    | WOk o => exists t' fd, Static.run s t (parent_and_name fz o2 pfuel gh ps rs root path) = Static.Done t' (Ok (fd, name))
+    | WOk o => exists t' fd, Static.run s rp t (parent_and_name fz o2 pfuel gh ps rs root path) = Static.Done t' (Ok (fd, name))
                              /\ Static.tget t' fd = Some o
-    | WErr n => exists t', Static.run s t (parent_and_name fz o2 pfuel gh ps rs root path) = Static.Done t' (Err (OsError n))
-    | WBudget => exists t', Static.run s t (parent_and_name fz o2 pfuel gh ps rs root path) = Static.Done t' (Err (OsError ELOOP))
+    | WErr n => exists t', Static.run s rp t (parent_and_name fz o2 pfuel gh ps rs root path) = Static.Done t' (Err (OsError n))
+    | WBudget => exists t', Static.run s rp t (parent_and_name fz o2 pfuel gh ps rs root path) = Static.Done t' (Err (OsError ELOOP))
     end.
 Proof. exact StaticProofs.parent_and_name_static. Qed.
 
